@@ -330,6 +330,11 @@ class LoadScopeScheduling:
             node.shutdown()
             return
 
+        # A replacement node which has not reported its collection yet
+        # cannot be given tests (they are sent as indices into it)
+        if node not in self.registered_collections:
+            return
+
         self.log("Number of units waiting for node:", len(self.workqueue))
 
         # Check that the node is almost depleted of work
